@@ -251,10 +251,12 @@ func (w *world) launch(id uint64, abort bool) error {
 		}
 		select {
 		case err := <-ch:
-			if !abort || err == nil {
+			// the committer is done: either it appended everything in the meantime (the result is
+			// put back for drain) or it gave up before writing
+			ch <- err
+			if w.ev.count() < before+want {
 				return fmt.Errorf("ReplicateTx(%d) returned before appending its values: %v", id, err)
 			}
-			ch <- err
 		default:
 		}
 		time.Sleep(50 * time.Microsecond)
@@ -503,7 +505,14 @@ func (w *world) opLayout() error {
 
 type muxProbe interface{ VerifValMuxLocked() bool }
 
-func (w *world) exportOne(id uint64) (cls int, err error, out []byte) {
+// exportOne runs ExportTx in a goroutine.  When the preceding export is known (hook) or suspected
+// (it returned "partially truncated transaction") to have kept _valBsMux, the call is given the
+// liveness bound of 2 s; otherwise a slow machine gets 30 s before the call counts as not returning.
+func (w *world) exportOne(id uint64, suspect bool) (cls int, err error, out []byte) {
+	bound := 30 * time.Second
+	if suspect {
+		bound = livenessBound
+	}
 	type res struct {
 		b   []byte
 		err error
@@ -528,7 +537,7 @@ func (w *world) exportOne(id uint64) (cls int, err error, out []byte) {
 			return 1, nil, r.b
 		}
 		return 0, nil, r.b
-	case <-time.After(livenessBound):
+	case <-time.After(bound):
 		return 3, nil, nil
 	}
 }
@@ -561,7 +570,7 @@ func (w *world) opExportIDs(ids []uint64) {
 				continue
 			}
 		}
-		cls, err, out := w.exportOne(id)
+		cls, err, out := w.exportOne(id, w.locked || lastPartial != 0)
 		lockedObs := "None"
 		nowLocked := false
 		if p, ok := any(w.st).(muxProbe); ok {
@@ -578,7 +587,7 @@ func (w *world) opExportIDs(ids []uint64) {
 			if lastPartial != 0 {
 				w.finding(fmt.Sprintf("ExportTx(tx %d) did not return within %v: ExportTx(tx %d) left _valBsMux locked after a 'partially truncated transaction' return; %s", id, livenessBound, lastPartial, w.desc()))
 			} else {
-				w.finding(fmt.Sprintf("ExportTx(tx %d) did not return within %v; %s", id, livenessBound, w.desc()))
+				w.finding(fmt.Sprintf("ExportTx(tx %d) did not return within its liveness bound (2s when _valBsMux is known to be held, 30s otherwise); %s", id, w.desc()))
 			}
 			w.locked = true
 		case nowLocked && partial:
@@ -589,7 +598,11 @@ func (w *world) opExportIDs(ids []uint64) {
 			w.finding(fmt.Sprintf("ExportTx(tx %d) returned (%v) with _valBsMux held; %s", id, err, w.desc()))
 			w.locked = true
 		case partial:
-			lastPartial = id // lock state not observable without the hook: the next export tells
+			if w.hookSeen {
+				lastPartial = 0 // the hook saw the mutex free
+			} else {
+				lastPartial = id // lock state not observable without the hook: the next export tells
+			}
 		}
 		if id <= committedN && id >= w.maxCut {
 			if _, exp := w.exposed[id]; !exp {
@@ -662,6 +675,7 @@ func (w *world) reopen() error {
 		return err
 	}
 	w.locked = false
+	w.lastPartial = 0
 	w.ops = append(w.ops, opT{kind: "reopen"})
 	w.obs = append(w.obs, "BNone")
 	if got := w.st.LastCommittedTxID(); got != w.nextID-1 {
